@@ -124,6 +124,10 @@ type kernel struct {
 	nout, nerr     int
 	tmpCtr         int64
 	base           int64 // plan and log indices are relative to this I/O index
+	fullFrom       int64 // >=0: from this (relative) I/O index on the disk is full
+	fullCreates    bool
+	fullErrno      syscall.Errno
+	firedFull      int64
 	exitCode       int
 	exited         bool
 }
@@ -131,7 +135,7 @@ type kernel struct {
 var k = newKernel()
 
 func newKernel() *kernel {
-	kk := &kernel{nodes: make([]node, 64), env: make([]string, 64), plan: make([]Fault, 16), log: make([]IOCall, 4096)}
+	kk := &kernel{nodes: make([]node, 64), env: make([]string, 64), plan: make([]Fault, 16), log: make([]IOCall, 4096), fullFrom: -1}
 	kk.mkdirRaw("/")
 	return kk
 }
@@ -297,6 +301,12 @@ func (kk *kernel) enter(op int, path string, n int) decision {
 		if match {
 			pf.seen++
 		}
+	}
+	if d.kind == FNone && kk.fullFrom >= 0 && idx-kk.base >= kk.fullFrom && (op == OpWrite || (kk.fullCreates && (op == OpCreate || op == OpMkdir))) {
+		// the disk stays full: every later write (and creation) fails too
+		d.kind = FErr
+		d.errno = kk.fullErrno
+		kk.firedFull++
 	}
 	if d.kind == FNone && kk.rate > 0 && kk.rateOps[op] {
 		t := simrt.T()
